@@ -142,22 +142,35 @@ class A(Adapter):
             freec = [(r, c) for r in range(n) for c in range(n) if fixed[r, c] == 0]
             if len(freec) >= 9:
                 break
-        pick = [freec[i] for i in rng.choice(len(freec), 9, replace=False)]
-        for (r, c) in pick[:4]:
-            fixed[r, c] = 2
-        # boxes and agent on non-wall cells (possibly on targets), clustered to provoke box-box contacts
-        cells = [(r, c) for r in range(n) for c in range(n) if fixed[r, c] != 1]
+        # boxes and agent on non-wall cells, clustered to provoke box-box contacts
+        cells = list(freec)
         ar, ac = cells[int(rng.integers(len(cells)))]
         near = sorted([p for p in cells if p != (ar, ac)], key=lambda p: abs(p[0] - ar) + abs(p[1] - ac) + 3 * rng.random())
         var = np.zeros((n, n), np.uint8)
         var[ar, ac] = 3
         for (r, c) in near[:4]:
             var[r, c] = 4
+        # targets: up to three of them under boxes (a parked box next to other boxes, pushes onto / off / into a box on a
+        # target), the others on any free cell (possibly under the agent)
+        k = int(rng.integers(0, 4))
+        under = [near[i] for i in rng.choice(4, k, replace=False)]
+        rest = [p for p in cells if p not in near[:4]]
+        tg = under + [rest[i] for i in rng.choice(len(rest), 4 - k, replace=False)]
+        for (r, c) in tg:
+            fixed[r, c] = 2
         if np.sum((var == 4) & (fixed == 2)) == 4:
             return None
         return base.replace(fixed_grid=jnp.asarray(fixed), variable_grid=jnp.asarray(var),
                             agent_location=jnp.asarray([ar, ac], jnp.int32),
                             step_count=jnp.asarray(int(rng.integers(0, max(1, env.time_limit))), jnp.int32))
+
+    def consistent_states(self, env, runner, rng, n):
+        """consistent boards for the C07 sweep (see envprops._c07)"""
+        import jax
+
+        base, _ = runner.reset(jax.random.PRNGKey(int(rng.integers(1 << 30))))
+        out = [self._random_state(env, rng, base) for _ in range(n)]
+        return [s for s in out if s is not None]
 
     def _check(self, ctx, cfg, env, drv, s, a, s2, ts2, what):
         js = self.ser_state(env, s)
